@@ -348,7 +348,8 @@ class Signal( NamedObject, Connectable ):
     leaf_signals = []
     def recursive_getattr( m, instance ):
       for x in instance.__dict__:
-        visit( getattr( m, x ), instance.__dict__[x] )
+        # not getattr: a field can have the name of a method of the signal
+        visit( m.__dict__[x] if x in m.__dict__ else m.__getattr__( x ), instance.__dict__[x] )
 
     # A field can be a (nested) list of Bits or bitstructs
     def visit( signal, value ):
@@ -410,7 +411,8 @@ class OutPort( Signal ):
 class Interface( NamedObject, Connectable ):
 
   def inverse( s ):
-    s._dsl.inversed = True
+    # the inverse of the inverse is the interface itself
+    s._dsl.inversed = not getattr( s._dsl, "inversed", False )
     return s
 
   # Override
@@ -432,10 +434,16 @@ class Interface( NamedObject, Connectable ):
 
   def _invert_members( s ):
     # Replace every port by its inverse, also the ports held in lists and
-    # in nested interfaces (which are already constructed at this point)
+    # in nested interfaces (which are already constructed at this point).
+    # A port that is referenced twice ( s.b = s.a ) stays one port.
+    inverses = {}
     def inv( obj ):
       if isinstance( obj, Signal ):
-        return obj.inverse()
+        if obj._dsl.parent_obj is not s:
+          return obj # a reference to a port that lives elsewhere
+        if id(obj) not in inverses:
+          inverses[ id(obj) ] = ( obj, obj.inverse() )
+        return inverses[ id(obj) ][1]
       if isinstance( obj, list ):
         new = [ inv(x) for x in obj ]
         return new if any( x is not y for x, y in zip( new, obj ) ) else obj
